@@ -32,14 +32,14 @@ def check(rec, obs, logdelta, value=None):
         if obs["held"] or obs["items"] or obs["inputs"]:
             bad.append(("clear-all-leaves-values", "Model.clear_all() left %r" % (obs,)))
         return bad
-    if mode == "xchange":           # a reference change: assigned values stay, computed values of S are gone
+    if mode == "xchange":           # a reference change: assigned values stay, values computed from it are gone
         for lab, val in rec["inputs"].items():
             if lab not in obs["held"] or obs["held"][lab] != val:
                 bad.append(("input-lost", lab))
             elif lab not in obs["inputs"]:
                 bad.append(("input-flag", lab))
-        for lab in obs["held"]:
-            if lab.startswith("S.") and lab not in obs["inputs"]:
+        for lab in rec["gone"]:        # computed from the changed reference, directly or transitively
+            if lab in obs["held"] or lab in obs["items"]:
                 bad.append(("stale-kept", lab))
         if logdelta:
             bad.append(("formula-ran-during-edit", logdelta))
